@@ -17,7 +17,8 @@ u.trusted += [
     'layout contracts (stride, size, align, enum_layout) proved in unit layout and used here as stubs',
     'distinct stack slots and distinct heap objects do not overlap (Cranelift / allocator guarantee)',
     'values handed to write_all carry the width of their type (den_bytes <= size), pointers carry provenance (Den::Addr)',
-    'cast_into_memory as a whole, cast_struct_to_struct, cast_array_to_array are NOT under contract: only the store-emitting callees are',
+    'cast_into_memory as a whole is NOT under contract (its arms variant->enum, optional->optional nil, payload->union, array->array, struct->struct are); the recursion is assumed to meet the frame contract',
+    'struct casts: the by-name map of the destination members is a shim (index_members / at), which member is equivalent to which is uninterpreted',
 ]
 
 DYN = Rewrite('R4', r'&mut dyn Module', '&mut Module', count=None, why='trait object -> shim struct of the same name')
@@ -345,6 +346,249 @@ u.extract(M, 'fn cast_payload_into_tagged_union', rewrites=[DYN, NOASSERT, EXPEC
     }
 """)])
 
+# ---- array -> array and struct -> struct casts (cast_array_to_array verbatim) --------------------
+u.raw("""
+// `assert!(c)`: the statements after it run only when c holds (a failed assertion aborts the
+// compiler, nothing more is emitted) -- ASSUMED std behaviour
+#[verifier::external_body]
+pub fn rt_assert(c: bool) ensures c { unimplemented!() }
+pub uninterp spec fn spec_feq(a: Ty, b: Ty, strict: bool) -> bool;
+impl Ty {
+    // structural equivalence of two types: uninterpreted here (which branch is taken does not
+    // matter for the frame)
+    #[verifier::external_body]
+    pub fn is_functionally_equivalent_to(&self, other: &Ty, strict: bool) -> (r: bool) ensures r == spec_feq(*self, *other, strict) { unimplemented!() }
+    #[verifier::external_body]
+    pub fn is_array(&self) -> (r: bool) ensures r == (spec_abs(*self) is AnonArray || spec_abs(*self) is ConcreteArray) { unimplemented!() }
+}
+pub open spec fn arr_len(t: Ty) -> nat {
+    match spec_abs(t) { Ty::AnonArray { size, .. } => size as nat, Ty::ConcreteArray { size, .. } => size as nat, _ => 0 }
+}
+pub open spec fn arr_sub(t: Ty) -> Ty {
+    match spec_abs(t) { Ty::AnonArray { sub_ty, .. } => *sub_ty.0, Ty::ConcreteArray { sub_ty, .. } => *sub_ty.0, _ => t }
+}
+pub open spec fn is_arr(t: Ty) -> bool { spec_abs(t) is AnonArray || spec_abs(t) is ConcreteArray }
+/// the table entries of a type and of everything its distinct / variant wrappers wrap are the
+/// ones unit layout establishes (rely condition: calc_single enters the wrapped type first)
+pub open spec fn chain_ok(ty: Ty) -> bool decreases ty {
+    entry_ok(ty) && match ty {
+        Ty::Distinct { sub_ty, .. } => chain_ok(*sub_ty.0),
+        Ty::EnumVariant { sub_ty, .. } => chain_ok(*sub_ty.0),
+        _ => true,
+    }
+}
+pub proof fn lemma_chain(ty: Ty)
+    requires chain_ok(ty)
+    ensures tsize(ty) == tsize(spec_abs(ty)), entry_ok(spec_abs(ty))
+    decreases ty
+{
+    match ty {
+        Ty::Distinct { sub_ty, .. } => { lemma_chain(*sub_ty.0); }
+        Ty::EnumVariant { sub_ty, .. } => { lemma_chain(*sub_ty.0); }
+        _ => {}
+    }
+}
+pub proof fn lemma_rup_ge(x: nat, a: nat) ensures rup(x, a) >= x
+{
+    if a > 0 && x % a != 0 { assert(x % a < a) by(nonlinear_arith) requires a > 0; }
+}
+pub proof fn lemma_arr_size(ty: Ty)
+    requires chain_ok(ty), is_arr(ty)
+    ensures tsize(ty) == arr_len(ty) * stride_of(arr_sub(ty))
+{
+    lemma_chain(ty);
+}
+pub proof fn lemma_elem_in_array(stride: nat, sub: nat, len: nat, idx: nat)
+    requires idx < len, sub <= stride
+    ensures stride * idx + sub <= stride * len, stride * idx <= stride * len
+{
+    assert(stride * idx + stride == stride * (idx + 1)) by(nonlinear_arith);
+    assert(stride * (idx + 1) <= stride * len) by(nonlinear_arith) requires idx + 1 <= len;
+    assert(stride * idx <= stride * len) by(nonlinear_arith) requires idx <= len;
+}
+""")
+u.extract(T, 'impl Ty::fn as_array', wrap=('impl Ty {', '}'), contract="""
+    ensures is_arr(*self) ==> res is Some && (res->0).0 as nat == arr_len(*self) && *((res->0).1).0 == arr_sub(*self),
+        !is_arr(*self) ==> res is None
+""")
+RT_ASSERT = Rewrite('R7', r'assert!\(((?:[^;]|;(?!\n))*?)\);\n', r'rt_assert(\1);\n', count=None, why='`assert!(c)` -> `rt_assert(c)`: what follows runs only when c holds')
+RT_ASSERT_EQ = Rewrite('R7', r'assert_eq!\(([^,;]*?), ([^,;]*?)\);\n', r'rt_assert(\1 == \2);\n', count=None, why='`assert_eq!(a, b)` -> `rt_assert(a == b)`')
+MAP_LOAD = Rewrite('R7', r'(\w+)\s*\.get_final_ty\(\)\s*\.into_real_type\(\)\s*\.map\(\|(\w+)\|\s*\{\s*builder\s*\.ins\(\)\s*\.load\(([^;]*?)\)\s*\}\)',
+                   r'match \1.get_final_ty().into_real_type() { Some(\2) => Some(builder.ins().load(\3)), None => None }', count=1,
+                   why='`opt.map(|t| builder.ins().load(t, ..))` written as the match it abbreviates (the closure borrows the builder mutably)')
+u.extract(M, 'fn cast_array_to_array', rewrites=[DYN, RT_ASSERT, RT_ASSERT_EQ, MAP_LOAD], contract="""
+    requires
+        chain_ok(*cast_from.0), chain_ok(*cast_to.0), tsize(*cast_from.0) <= 0x3fff_ffff, tsize(*cast_to.0) <= 0x3fff_ffff,
+        // an array is handed over by address
+        val is Some ==> val->0.den@ is Addr,
+        memory is Some ==> loc_wf(memory->0) && memory->0.offset + tsize(*cast_to.0) <= 0x3fff_ffff,
+    ensures
+        // either the value is handed on untouched, or every element is converted into its place
+        // inside the destination array: nothing outside the destination array is written
+        !spec_feq(arr_sub(*cast_from.0), arr_sub(*cast_to.0), false) && val is Some ==> {
+            &&& res is Some && res->0.den@ is Addr
+            &&& frame_at(*old(builder), *final(builder), ptr_base(res->0), ptr_off(res->0), tsize(*cast_to.0) as int)
+            &&& memory is Some ==> ptr_base(res->0) == loc_base(memory->0) && ptr_off(res->0) == loc_off(memory->0)
+            &&& memory is None ==> ptr_off(res->0) == 0 && fresh_slot(*old(builder), *final(builder), ptr_base(res->0), tsize(*cast_to.0) as int)
+        },
+        // same element representation: the value itself, nothing is emitted
+        spec_feq(arr_sub(*cast_from.0), arr_sub(*cast_to.0), false) ==> res == val && final(builder).log == old(builder).log && final(builder).slots == old(builder).slots,
+        !spec_feq(arr_sub(*cast_from.0), arr_sub(*cast_to.0), false) && val is None ==> res is None && final(builder).log == old(builder).log,
+""", loops={0: """
+            invariant
+                loc_wf(result_mem), result_mem.offset + tsize(*cast_to.0) <= 0x3fff_ffff,
+                is_arr(*cast_to.0), is_arr(*cast_from.0), to_len == arr_len(*cast_to.0), from_len == arr_len(*cast_from.0), from_len == to_len,
+                *to_sub_ty.0 == arr_sub(*cast_to.0), *from_sub_ty.0 == arr_sub(*cast_from.0),
+                chain_ok(*cast_from.0), chain_ok(*cast_to.0), tsize(*cast_from.0) <= 0x3fff_ffff, tsize(*cast_to.0) <= 0x3fff_ffff,
+                entry_ok(*to_sub_ty.0), entry_ok(*from_sub_ty.0),
+                to_sub_stride as nat == stride_of(*to_sub_ty.0), from_sub_stride as nat == stride_of(*from_sub_ty.0),
+                val.den@ is Addr,
+                log_extends(l1, builder.log@),
+                only_writes_within(builder.log@, l1.len() as int, loc_base(result_mem), loc_off(result_mem), loc_off(result_mem) + tsize(*cast_to.0)),
+                builder.slots == slots1,
+"""}, inserts=[('@after_stmt:let result_mem = memory.unwrap_or_alloca(builder, cast_to)', 'after', """
+        let ghost l1 = builder.log@; let ghost slots1 = builder.slots;
+        proof { lemma_log_refl(l1, loc_base(result_mem), loc_off(result_mem), loc_off(result_mem) + tsize(*cast_to.0)); }
+"""), ('@loop_start:0', 'after', """
+            let ghost lb = builder.log@;
+            proof {
+                assert(idx < to_len);
+                lemma_arr_size(*cast_to.0); lemma_arr_size(*cast_from.0);
+                lemma_rup_ge(tsize(*to_sub_ty.0), talign(*to_sub_ty.0));
+                lemma_elem_in_array(to_sub_stride as nat, tsize(*to_sub_ty.0), to_len as nat, idx as nat);
+                lemma_elem_in_array(from_sub_stride as nat, 0, from_len as nat, idx as nat);
+                assert(to_len as nat * stride_of(*to_sub_ty.0) == stride_of(*to_sub_ty.0) * to_len as nat) by(nonlinear_arith);
+                assert(from_len as nat * stride_of(*from_sub_ty.0) == stride_of(*from_sub_ty.0) * from_len as nat) by(nonlinear_arith);
+            }
+"""), ('@after_stmt:let dest = result_mem.with_offset(to_offset)', 'after', ' let ghost mid = builder.log@; '),
+   ('@loop_body_end:0', 'before', """
+            proof {
+                let base = loc_base(result_mem); let lo = loc_off(result_mem); let hi = loc_off(result_mem) + tsize(*cast_to.0);
+                lemma_within_weaken(builder.log@, mid.len() as int, base, loc_off(dest), loc_off(dest) + tsize(*to_sub_ty.0), lo, hi);
+                assert forall|i: int| lb.len() <= i < builder.log@.len() implies ev_within(#[trigger] builder.log@[i], base, lo, hi) by {
+                    if i < mid.len() { assert(builder.log@[i] == mid[i]); assert(ev_quiet(mid[i])); }
+                }
+                lemma_frame_step(l1, lb, builder.log@, base, lo, hi);
+            }
+""")])
+
+# ---- struct -> struct cast (cast_struct_to_struct verbatim) ---------------------------------------
+u.raw("""
+pub uninterp spec fn spec_members_equiv(a: Seq<MemberTy>, b: Seq<MemberTy>) -> bool;
+// `a.iter().zip_eq(b.iter()).all(|(from, to)| from.name == to.name && from.ty.is_functionally_equivalent_to(&to.ty, true))`:
+// which branch is taken does not matter for the frame -- uninterpreted
+#[verifier::external_body]
+pub fn members_all_equiv(a: &Vec<MemberTy>, b: &Vec<MemberTy>) -> (r: bool) ensures r == spec_members_equiv(a@, b@) { unimplemented!() }
+// `v.iter().enumerate().map(|(idx, m)| (m.name, (idx, m.ty))).collect::<FxHashMap<_, _>>()`:
+// the members by name (ASSUMED meaning of the iterator chain)
+pub struct MemberIndex { pub m: Ghost<Seq<MemberTy>> }
+#[verifier::external_body]
+pub fn index_members(v: &Vec<MemberTy>) -> (r: MemberIndex) ensures r.m@ == v@ { unimplemented!() }
+impl MemberIndex {
+    // `map[name]`: position and type of the member of that name; panics when there is none, so
+    // what follows runs only when there is one
+    #[verifier::external_body]
+    pub fn at(&self, name: &Name) -> (r: (usize, Intern<Ty>))
+        ensures (r.0 as int) < self.m@.len(), self.m@[r.0 as int].ty == r.1
+    { unimplemented!() }
+}
+impl Ty {
+    #[verifier::external_body]
+    pub fn is_struct(&self) -> (r: bool) ensures r == is_struct_ty(spec_abs(*self)) { unimplemented!() }
+    // `Some(members.clone())` of the struct under the wrappers (ASSUMED: accessor)
+    #[verifier::external_body]
+    pub fn as_struct(&self) -> (r: Option<Vec<MemberTy>>)
+        ensures is_struct_ty(spec_abs(*self)) ==> r is Some && r->0@ == members_of(spec_abs(*self)), !is_struct_ty(spec_abs(*self)) ==> r is None
+    { unimplemented!() }
+}
+/// the part of the struct layout rule a copy into the struct needs: every member lies inside
+pub open spec fn fields_in(f: Seq<Ty>, l: StructLayoutView) -> bool {
+    l.offsets.len() == f.len() && forall|i: int| 0 <= i < f.len() ==> #[trigger] l.offsets[i] + tsize(f[i]) <= l.size
+}
+pub proof fn lemma_fields_in(ty: Ty, l: StructLayoutView)
+    requires struct_layout_ok(ty, l)
+    ensures fields_in(field_tys(ty), l)
+{}
+pub proof fn lemma_struct_size(ty: Ty)
+    requires chain_ok(ty), is_struct_ty(spec_abs(ty))
+    ensures tsize(ty) == tstruct(spec_abs(ty)).size
+{
+    lemma_chain(ty);
+}
+""")
+ALL_EQUIV = Rewrite('R7', r'from_members\s*\.iter\(\)\s*\.zip_eq\(to_members\.iter\(\)\)\s*\.all\(\|\(from, to\)\| \{\s*from\.name == to\.name && from\.ty\.is_functionally_equivalent_to\(&to\.ty, true\)\s*\}\)',
+                    'members_all_equiv(&from_members, &to_members)', count=1, flags=16,
+                    why='iterator chain `zip_eq(..).all(|(from, to)| same name && functionally equivalent)` -> shim with an uninterpreted result')
+BY_NAME = Rewrite('R7', r'let to_members: FxHashMap<_, _> = to_members\s*\.iter\(\)\s*\.enumerate\(\)\s*\.map\(\|\(idx, member_ty\)\| \(member_ty\.name, \(idx, member_ty\.ty\)\)\)\s*\.collect\(\);',
+                  'let to_members_v = to_members; let to_members = index_members(&to_members_v);', count=1,
+                  why='iterator chain building the by-name map of the destination members -> shim `index_members` (position and type of each member)')
+BY_NAME_AT = Rewrite('R4', r'to_members\[from_name\]', 'to_members.at(from_name)', count=1, why='Index on FxHashMap -> shim read `at`')
+MAP_LOAD2 = Rewrite('R7', MAP_LOAD.pattern, MAP_LOAD.repl, count=1, why=MAP_LOAD.why)
+u.extract(M, 'fn cast_struct_to_struct', rewrites=[DYN, RT_ASSERT, RT_ASSERT_EQ, ALL_EQUIV, BY_NAME, BY_NAME_AT, MAP_LOAD2],
+          desugar_for={0: ('mi', 'enum_ref')}, contract="""
+    requires
+        chain_ok(*cast_from.0), chain_ok(*cast_to.0), tsize(*cast_from.0) <= 0x3fff_ffff, tsize(*cast_to.0) <= 0x3fff_ffff,
+        val is Some ==> val->0.den@ is Addr,
+        memory is Some ==> loc_wf(memory->0) && memory->0.offset + tsize(*cast_to.0) <= 0x3fff_ffff,
+    ensures
+        // either the value is handed on untouched, or every member is converted into the place of
+        // the member of the same name inside the destination struct: nothing else is written
+        !spec_members_equiv(members_of(spec_abs(*cast_from.0)), members_of(spec_abs(*cast_to.0))) && val is Some ==> {
+            &&& res is Some && res->0.den@ is Addr
+            &&& frame_at(*old(builder), *final(builder), ptr_base(res->0), ptr_off(res->0), tsize(*cast_to.0) as int)
+            &&& memory is Some ==> ptr_base(res->0) == loc_base(memory->0) && ptr_off(res->0) == loc_off(memory->0)
+            &&& memory is None ==> ptr_off(res->0) == 0 && fresh_slot(*old(builder), *final(builder), ptr_base(res->0), tsize(*cast_to.0) as int)
+        },
+        spec_members_equiv(members_of(spec_abs(*cast_from.0)), members_of(spec_abs(*cast_to.0))) ==> res == val && final(builder).log == old(builder).log && final(builder).slots == old(builder).slots,
+        !spec_members_equiv(members_of(spec_abs(*cast_from.0)), members_of(spec_abs(*cast_to.0))) && val is None ==> res is None && final(builder).log == old(builder).log,
+""", loops={0: """
+            invariant
+                0 <= mi <= it_mi@.len(), it_mi@ == members_of(spec_abs(*cast_from.0)),
+                from_members@.len() == to_members.m@.len(), to_members.m@ == members_of(spec_abs(*cast_to.0)),
+                loc_wf(result_mem), result_mem.offset + tsize(*cast_to.0) <= 0x3fff_ffff,
+                is_struct_ty(spec_abs(*cast_from.0)), is_struct_ty(spec_abs(*cast_to.0)),
+                chain_ok(*cast_from.0), chain_ok(*cast_to.0), tsize(*cast_from.0) <= 0x3fff_ffff, tsize(*cast_to.0) <= 0x3fff_ffff,
+                from_layout.view() == tstruct(spec_abs(*cast_from.0)), fields_in(field_tys(spec_abs(*cast_from.0)), tstruct(spec_abs(*cast_from.0))),
+                to_layout.view() == tstruct(spec_abs(*cast_to.0)), fields_in(field_tys(spec_abs(*cast_to.0)), tstruct(spec_abs(*cast_to.0))),
+                tsize(*cast_to.0) == tstruct(spec_abs(*cast_to.0)).size, tsize(*cast_from.0) == tstruct(spec_abs(*cast_from.0)).size,
+                val.den@ is Addr,
+                log_extends(l1, builder.log@),
+                only_writes_within(builder.log@, l1.len() as int, loc_base(result_mem), loc_off(result_mem), loc_off(result_mem) + tsize(*cast_to.0)),
+                builder.slots == slots1,
+            decreases it_mi@.len() - mi
+"""}, inserts=[('@after_stmt:let result_mem = memory.unwrap_or_alloca(builder, cast_to)', 'after', """
+        let ghost l1 = builder.log@; let ghost slots1 = builder.slots;
+        proof { lemma_log_refl(l1, loc_base(result_mem), loc_off(result_mem), loc_off(result_mem) + tsize(*cast_to.0)); }
+"""), ('@loop_start:0', 'after', """
+            let ghost lb = builder.log@;
+"""), ('@after_stmt:let to_layout = cast_to.struct_layout().unwrap()', 'after', """
+        proof {
+            lemma_struct_size(*cast_to.0); lemma_struct_size(*cast_from.0);
+            lemma_fields_in(spec_abs(*cast_to.0), tstruct(spec_abs(*cast_to.0)));
+            lemma_fields_in(spec_abs(*cast_from.0), tstruct(spec_abs(*cast_from.0)));
+        }
+"""), ('@after_stmt:let to_offset =', 'after', """
+            proof {
+                let lt = tstruct(spec_abs(*cast_to.0)); let lf = tstruct(spec_abs(*cast_from.0));
+                assert(to_layout.view().offsets[to_idx as int] == to_offset as nat);
+                assert(from_layout.view().offsets[from_idx as int] == from_offset as nat);
+                assert(lt.offsets[to_idx as int] + tsize(field_tys(spec_abs(*cast_to.0))[to_idx as int]) <= lt.size);
+                assert(lf.offsets[from_idx as int] + tsize(field_tys(spec_abs(*cast_from.0))[from_idx as int]) <= lf.size);
+                assert(*to_ty.0 == field_tys(spec_abs(*cast_to.0))[to_idx as int]);
+            }
+"""), ('@after_stmt:let src = if from_ty.is_aggregate()', 'after', ' let ghost mid = builder.log@; '),
+   ('@loop_body_end:0', 'before', """
+            proof {
+                let base = loc_base(result_mem); let lo = loc_off(result_mem); let hi = loc_off(result_mem) + tsize(*cast_to.0);
+                assert(*to_ty.0 == field_tys(spec_abs(*cast_to.0))[to_idx as int]);
+                lemma_within_weaken(builder.log@, mid.len() as int, base, loc_off(dest), loc_off(dest) + tsize(*to_ty.0), lo, hi);
+                assert forall|i: int| lb.len() <= i < builder.log@.len() implies ev_within(#[trigger] builder.log@[i], base, lo, hi) by {
+                    if i < mid.len() { assert(builder.log@[i] == mid[i]); assert(ev_quiet(mid[i])); }
+                }
+                lemma_frame_step(l1, lb, builder.log@, base, lo, hi);
+            }
+""")])
+
 MUTANTS = [
     (M, '    memory.write_val(builder, one, enum_layout.discriminant_offset() as i32);', '    memory.write_val(builder, one, enum_layout.discriminant_offset() as i32 + 8);', 'violation'),
     (M, '        to_payload_ty,\n        Some(memory),\n    );\n\n    let enum_layout = union_ty', '        union_ty,\n        Some(memory),\n    );\n\n    let enum_layout = union_ty', 'ok'),
@@ -357,6 +601,11 @@ MUTANTS = [
                                 let bytes = builder.ins().load(''', '''                            while (off + $width) <= ty.stride() as i32 {
                                 let bytes = builder.ins().load(''', 'violation'),
     (M, 'cranelift::codegen::ir::Type::int_with_byte_size($width).unwrap(),\n                                val as i64,', 'cranelift::codegen::ir::Type::int_with_byte_size(8).unwrap(),\n                                val as i64,', 'violation'),
+    # array -> array and struct -> struct casts
+    (M, '            let to_offset = to_sub_stride * idx;', '            let to_offset = from_sub_stride * idx;', 'violation'),
+    (M, '            let to_offset = to_layout.offsets()[to_idx];', '            let to_offset = from_layout.offsets()[to_idx];', 'violation'),
+    (M, '            let dest = result_mem.with_offset(to_offset);\n\n            let src = if from_ty.is_aggregate() {', '            let dest = result_mem.with_offset(from_offset);\n\n            let src = if from_ty.is_aggregate() {', 'violation'),
+    (M, '            let from_offset = from_sub_stride * idx;\n            let to_offset = to_sub_stride * idx;', '            let to_offset = to_sub_stride * idx;\n            let from_offset = from_sub_stride * idx;', 'ok'),
     # others
     (M, 'memory.write_val(builder, discrim, enum_layout.discriminant_offset() as i32);', 'memory.write_val(builder, discrim, enum_layout.discriminant_offset() as i32 + 1);', 'violation'),
     (M, '                    .stack_store(x, slot, offset + self.offset as i32)', '                    .stack_store(x, slot, offset)', 'violation'),
